@@ -173,6 +173,10 @@ class Builder:
             k = ch.count(1, 2)
             ren = rename_pairs(pool, k)
             plain = [[n, None] for n in pool[k:] if ch.bool(1, 2)]
+            if "use.two_names" not in self.excl and ch.bool(1, 3):
+                # one entity under two names: `only: x, r => x`
+                plain.append([ren[0][1], None])
+                self.feats.add("use:entity-under-two-names")
             scope["uses"].append({"module": mname, "only": ch.shuffle(ren + plain), "renames": [], "nature": nature})
         else:
             pool = ch.shuffle(names)
